@@ -1,4 +1,5 @@
 import BobModel.Proofs.C19Cmd
+import BobModel.Generated.ConstsC19
 /-
 C19 — archive retention keeps exactly what is selected or referenced.
 
@@ -309,7 +310,18 @@ theorem history_index_independent (C : Bid → Stat → Option AuditInfo) (steps
         simpa [scanCmd, scanWith] using hsc.1
     rw [hstep.1.1, hstep.1.2, ih (fun s hs' => hok s (by simp [hs'])) _ hstep.2]
 
-/-! ### the scanner as it is: the result depends on the index (finding F-C19-1) -/
+/-- **The source has the repaired scanner.**  `Generated/ConstsC19.lean` is regenerated from the current source of
+`ArchiveScanner.scan/__scan` on every run: `scan` forgets unseen rows and ownerless references, `__scan` drops the
+references of a row it re-reads.  With these facts the scan function that the model of the commands uses is `scanRepaired`,
+the one `scan_normalises` … `history_index_independent` are about.  Reverting the fix breaks this theorem. -/
+theorem modelled_scan_is_repaired :
+    scanWith (Consts.C19.scanDropsUnseenRows && Consts.C19.scanDropsOwnerlessRefs && Consts.C19.rereadDropsRefs) = scanRepaired := by
+  funext idx files
+  have h : (Consts.C19.scanDropsUnseenRows && Consts.C19.scanDropsOwnerlessRefs && Consts.C19.rereadDropsRefs) = true := by decide
+  rw [h]
+  rfl
+
+/-! ### the scanner before the fix: the result depends on the index (findings F-C19-1, F-C19-2) -/
 
 /-- The defect in general: the scanner as it is never touches a row whose artifact is no longer in the archive —
 the row stays in the index (and keeps taking part in `query`). -/
